@@ -143,7 +143,14 @@ def serialised (fs : List Field) : List Field :=
 def declOk (env : Env) (w : Wrappers) (d : Decl) : Bool :=
   match d.body with
   | .named u =>
-    shapeOk u && noUnion env u &&
+    (if w.nameds.contains d.q then
+      -- a named slice / map of unions, written element-wise through the generated wrapper
+      (match u with
+       | .arr n (.ref uq) => decide (n = -1) && isUnionTy env (.ref uq)
+       | .map k (.ref uq) =>
+         (match k with | .basic _ .str => true | .basic _ .int => true | _ => false) && isUnionTy env (.ref uq)
+       | _ => false)
+     else shapeOk u && noUnion env u) &&
     (match u with | .basic _ .int => true | _ => d.name != refName env u)
   | .enum _ _ _ _ => true
   | .struct fs _ _ =>
@@ -165,7 +172,6 @@ def lookupIs (tenv : List (String × TsType)) (n : String) (t : TsType) : Bool :
   match tenv.lookup n with | some t' => tsBeq t' t | none => false
 
 structure Fragment (env : Env) (w : Wrappers) (tenv : List (String × TsType)) (ds : List Decl) : Prop where
-  nameds : w.nameds = []
   found : ∀ d ∈ ds, env.find? d.q = some d
   closed : ∀ d ∈ ds, ∀ q ∈ (childTys d).flatMap Ty.refs, ∃ d' ∈ ds, d'.q = q
   ok : ∀ d ∈ ds, declOk env w d = true
@@ -173,7 +179,6 @@ structure Fragment (env : Env) (w : Wrappers) (tenv : List (String × TsType)) (
 
 /-- the same, as a decidable check (what the driver evaluates) -/
 def fragmentB (env : Env) (w : Wrappers) (tenv : List (String × TsType)) (ds : List Decl) : Bool :=
-  w.nameds.isEmpty &&
   ds.all (fun d => decide (env.find? d.q = some d)) &&
   ds.all (fun d => ((childTys d).flatMap Ty.refs).all fun q => ds.any fun d' => d'.q == q) &&
   ds.all (declOk env w) &&
